@@ -372,6 +372,7 @@ def run(ctx):
         unwritable_everywhere(ctx, forest)
         regex_operands(ctx, forest)
         regex_generated(ctx, forest)
+        bracket_units(ctx, forest)
         regex_refs(ctx)
         fprintf_keeps_file(ctx, forest)
         panic_inventory(ctx)
@@ -603,6 +604,45 @@ def regex_generated(ctx, forest):
                       % (ty, txt, code, len(out), atom, "valid" if valid else "invalid"),
                       {"property": "C11", "kind": "regex-generated", "regextype": ty, "operand": txt, "planted": atom, "valid": valid, "exit": str(code),
                        "stderr": err.decode("utf-8", "replace")[:200], "total_disagreements": len(bad)})
+
+
+def bracket_units(ctx, forest):
+    """bracket expressions put together from units - a character, a range, a class, a collating symbol, an equivalence class -
+    optionally negated and with ']' as first member: valid unless a unit is a range with a class or an equivalence class for an end
+    point, or a symbol names more than one character (valid and invalid by construction); every sequence of up to two units"""
+    import itertools
+    good = ["a", "x-z", "[.b.]", "[=c=]", "[:digit:]", "[.a.]-c", "a-[.c.]", "[.a.]-[.c.]", "!--", "%"]
+    bad = ["[=a=]-c", "a-[=c=]", "[=a=]-[=c=]", "[.a.]-[=c=]", "[:digit:]-z", "a-[:alpha:]", "[.ab.]", "[=ab=]"]
+    cases = []
+    for neg in ("", "^"):
+        for first in ("", "]", "]-[=a=]", "]-[.a.]"):
+            for n in (0, 1, 2):
+                for tup in itertools.product(good + bad, repeat=n):
+                    if not first and not tup:
+                        continue
+                    valid = first != "]-[=a=]" and not any(u in bad for u in tup)
+                    # (a "-" may end a bracket expression as a member)
+                    for last in ("", "-"):
+                        cases.append(("x[" + neg + first + "".join(tup) + last + "]", valid))
+    lines, keys = [], []
+    for ty in ("posix-extended", "posix-basic", "grep"):
+        for pat, valid in cases:
+            if ty != "posix-extended" and hash((ty, pat)) % 4 and not ctx.thorough:
+                continue
+            lines.append("find - %s %s" % (fw.hexs(forest.dir), xc.hexlist([b"sb", b"-maxdepth", b"0", b"-regextype", ty.encode(), b"-regex", pat.encode(), b"-o", b"-print0"])))
+            keys.append((ty, pat, valid))
+    bad_rows = []
+    for (ty, pat, valid), line in zip(keys, xc.run_impl(lines)):
+        code, out, err = wc.decode_find(line)
+        ctx.count(("bracket-units", ty, pat), True, ["bracket-units", "valid=%d" % valid, "regextype=" + ty])
+        rejected = code == 1 and out == b"" and err.startswith(b"Error")
+        if code in ("panic", "runner-died") or (valid and code != 0) or (not valid and not rejected):
+            bad_rows.append((ty, pat, valid, code, out, err))
+    for ty, pat, valid, code, out, err in bad_rows[:3]:
+        ctx.violation("find sb -regextype %s -regex %r -o -print0: exit %s, %d bytes printed; the bracket expression is %s by its construction"
+                      % (ty, pat, code, len(out), "valid" if valid else "invalid (a class or an equivalence class as an end point of a range, or a symbol of several characters)"),
+                      {"property": "C11", "kind": "bracket-units", "regextype": ty, "operand": pat, "valid": valid, "exit": str(code),
+                       "stderr": err.decode("utf-8", "replace")[:200], "total_disagreements": len(bad_rows)})
 
 
 def regex_refs(ctx):
